@@ -406,14 +406,14 @@ func genStore() (string, error) {
 	}
 	fmt.Fprintf(&b, "/-- `store/indexer.go`: how the process-wide block cache is created (key type!) -/\ndef blockCacheDecl : String := %q\n", cacheDecl)
 	var cacheUse [][2]string
-	for _, fn := range []string{"IndexBlock", "GetBlockByHeight", "GetBlockHeaderByHeight", "getBlockForPage", "DeleteBlockForHeight", "GetBlockByHash", "GetQCByHeight"} {
+	for _, fn := range []string{"IndexBlock", "GetBlockByHeight", "GetBlockHeaderByHeight", "getBlockForPage", "DeleteBlockForHeight", "GetBlockByHash", "GetQCByHeight", "GetBlocks", "setBlocksTook"} {
 		fd := ifile.FindFunc("Indexer", fn)
 		if fd == nil || fd.Body == nil {
 			return "", fmt.Errorf("store/indexer.go: Indexer.%s not found", fn)
 		}
 		for _, c := range calls(fd) {
 			f := g.ExprText(c.Fun)
-			if strings.HasPrefix(f, "blockCache.") || f == "t.db.Get" || f == "t.getBlock" || f == "t.GetBlockByHeight" {
+			if strings.HasPrefix(f, "blockCache.") || f == "t.db.Get" || f == "t.getBlock" || f == "t.GetBlockByHeight" || f == "t.getBlockForPage" {
 				cacheUse = append(cacheUse, [2]string{fn, text(c)})
 			}
 		}
